@@ -105,6 +105,16 @@ func (l *VerifLoop) Close() {
 	l.d.cancel()
 }
 
+// PeerBusy reports the real activity flag of a registered peer connection (blockIdle, the flag FetchBodies sets and
+// SetBodiesIdle clears) and whether the peer is still registered.
+func (l *VerifLoop) PeerBusy(id string) (busy bool, registered bool) {
+	p := l.d.peers.Peer(id)
+	if p == nil {
+		return false, false
+	}
+	return atomic.LoadInt32(&p.blockIdle) != 0, true
+}
+
 // Dropped lists the peers dropPeer was called for.
 func (l *VerifLoop) Dropped() []string {
 	l.mu.Lock()
